@@ -217,7 +217,9 @@ def job_specs(draw, max_tasks: int = 14, min_tasks: int = 0, max_outs: int = 4, 
             ext_l = draw(st.lists(st.sampled_from(all_ds), min_size=1, max_size=2, unique_by=lambda d: tuple(d)))
         else:
             ext_l = draw(st.lists(st.sampled_from(all_ds), max_size=len(all_ds), unique_by=lambda d: tuple(d)))
-    spec = {"tasks": tasks, "ext": ext_l, "ext_mode": draw(st.sampled_from(["ctor", "ctor", "assign", "inplace"]))}
+    spec = {"tasks": tasks, "ext": ext_l, "ext_mode": draw(st.sampled_from(["ctor", "ctor", "assign", "inplace"])),
+            # the edge list of a job is a list in whatever order it was assembled: a task's in-edges need not be adjacent
+            "edge_shuffle": draw(st.one_of(st.none(), st.integers(0, 1 << 16)))}
     if with_serdes:
         # custom serde registrations (type name -> (ser function, des function)); only the encodings carry them (C17)
         spec["serdes"] = draw(st.dictionaries(st.sampled_from(["pkg.T", "numpy.ndarray", "a.b.C", ""]),
@@ -283,6 +285,10 @@ def build_job(spec: dict, fn_factory=make_fn, faults: dict | None = None) -> Job
             static_input_kw=kw,
             static_input_ps=ps,
         )
+    if spec.get("edge_shuffle") is not None:
+        import random
+
+        random.Random(spec["edge_shuffle"]).shuffle(edges)
     ext = [DatasetId(names[i], o) for i, o in spec["ext"]]
     mode = spec.get("ext_mode", "ctor")
     serdes = {k: (v[0], v[1]) for k, v in spec.get("serdes", {}).items()}
